@@ -8,7 +8,8 @@
    sat-level statement ("Index::find(sat) returns the same satpoint") is only tied by correspondence and by
    the oracle (see props/C03.json). *)
 From OrdV Require Import Base.Prelude Generated Index.Inscr Proofs.Inscr_tables Proofs.Inscr_proofs
-  Proofs.Inscr_c06 Proofs.Inscr_c04 Proofs.Inscr_c03 Proofs.Inscr_sats Proofs.Inscr_satinv Proofs.Inscr_c03b.
+  Proofs.Inscr_c06 Proofs.Inscr_c04 Proofs.Inscr_c03 Proofs.Inscr_sats Proofs.Inscr_satinv Proofs.Inscr_c03b Proofs.Inscr_bridge.
+From OrdV Require Index.SatIndex.
 From Coq Require Import Permutation.
 
 (* (1) old inscriptions of an input keep their place inside it: offset in the transaction = value of the
@@ -152,6 +153,32 @@ Theorem C03_untouched_outputs : forall cfg h insc first t b b' k,
   tget pair_eqb k (s_utxo (b_st b')) = tget pair_eqb k (s_utxo (b_st b)).
 Proof. exact untouched_outputs. Qed.
 
+(* (11) Index::find.  [SatIndex.run] / [SatIndex.find] are the sat-index model and the model of Index::find of
+   properties C01/C02 (Index/SatIndex.v, a separate development); [erase_chain] drops the envelopes and
+   reduces scripts to "is OP_RETURN".  Proofs/Inscr_bridge.v proves that on a valid chain the two models hold
+   the same sat ranges (every output, and the lost-sats entry), so C02's partition (no sat is stored twice)
+   applies to the ranges of this model.  Hence, with the sat index on, for every valid chain with non-empty
+   blocks that both models index: Index::find(sat of the inscription) is exactly the satpoint the inscription
+   index reports, for every inscription that has a sat and is held by a real output or by the lost-sats
+   pseudo-output.  (SatIndex.run succeeds on every chain with SatIndex.valid = true, C02_values.) *)
+Theorem C03_find_is_satpoint : forall cfg c st st2,
+  c_sats cfg = true -> Forall block_ok3 c -> Forall (fun b : block => b <> []) c ->
+  index_chain cfg 0 c empty_state = Ok st -> SatIndex.run (erase_chain c) = Ok st2 ->
+  forall op u, tget pair_eqb op (s_utxo st) = Some u -> (fst op <> 0 \/ op = null_op) ->
+  forall s off, In (s, off) (u_insc u) ->
+  forall e n, tget N.eqb s (s_entries st) = Some e -> i_sat e = Some n ->
+    SatIndex.find st2 n = Ok (Some (op, off)).
+Proof. exact find_is_satpoint. Qed.
+
+(* non-vacuity on the chain of C03_sat_nonvacuous: both inscriptions are found where they are reported *)
+Example C03_find_nonvacuous :
+  match SatIndex.run (erase_chain c03_chain) with
+  | Ok st2 => SatIndex.find st2 5000000000 = Ok (Some ((6, 0), 4999999000)) /\
+              SatIndex.find st2 5000001500 = Ok (Some ((6, 0), 500))
+  | _ => False
+  end.
+Proof. vm_compute. split; reflexivity. Qed.
+
 (* Non-vacuity of (3): offsets 5, 0, 12, 30 over outputs of 10 and 15 (the second an OP_RETURN): 0 and 5 land
    in output 0, 12 in output 1 at offset 2, 30 is left over. *)
 Example C03_nonvacuous :
@@ -171,3 +198,4 @@ Print Assumptions C03_old_burned.
 Print Assumptions C03_sats_fifo.
 Print Assumptions C03_location_is_sat_location.
 Print Assumptions C03_untouched_outputs.
+Print Assumptions C03_find_is_satpoint.
